@@ -103,9 +103,12 @@ class Field:
         self.name, self.typ, self.mask = name, typ, mask  # mask = (NatExpr(field|param), bit)
         self.arr = arr  # NatExpr for n*[T] (typ is then the element type)
         self.role = None  # for nat fields: "mask" | "size"
+        self.anon = False  # TL1 pattern '# name:[T]': anonymous count followed by brackets (typ is then a bare vector)
 
     def text(self):
         m = "%s.%d?" % (self.mask[0].text(), self.mask[1]) if self.mask else ""
+        if self.anon:
+            return "# %s:[%s]" % (self.name, self.typ.elem.text())
         if self.arr is not None:
             return "%s:%s%s*[%s]" % (self.name, m, self.arr.text(), self.typ.text())
         return "%s:%s%s" % (self.name, m, self.typ.text())
@@ -163,7 +166,8 @@ FIELD_NAMES = ["a", "b", "c", "d", "e", "f", "g", "h", "k", "x", "y", "z", "val"
 
 
 class Gen:
-    def __init__(self, seed, label="schema", max_types=12, allow_recursion=True, profile="full"):
+    def __init__(self, seed, label="schema", max_types=12, allow_recursion=True, profile="full", anon_pairs=True):
+        self.anon_pairs = anon_pairs
         self.r = stream(seed, label)
         self.s = Schema()
         self.tags = set(TAG.values())
@@ -247,6 +251,24 @@ class Gen:
                 continue
             if c < 32:
                 out.append(Field(nm, self.type_ref(1, sizes, masks), mask, arr=self.nat_arg("size", sizes, masks)))
+                continue
+            if c < 38 and not mask and self.anon_pairs:
+                f = Field(nm, T("vector", elem=self.type_ref(1, sizes, masks), form="bare"))
+                f.anon = True
+                out.append(f)
+                if r.chance(1, 2):
+                    # a run of '#' fields right after the pair: references to them must survive the merge of the pair into one field
+                    for role in ("size", r.pick(["mask", "size"])):
+                        nm2 = r.pick(["n", "m", "cnt", "flags"]) + str(r.below(90))
+                        while nm2 in used:
+                            nm2 = nm2 + str(r.below(90))
+                        used.add(nm2)
+                        g = Field(nm2, T("nat"))
+                        g.role = role
+                        out.append(g)
+                        (masks if role == "mask" else sizes).append((nm2, "field"))
+                    out.append(Field(nm + "s", T("prim", name="int", spelling="int"), arr=NatExpr("field", out[-2].name)))
+                    used.add(nm + "s")
                 continue
             if self_decl is not None and mask and self.allow_recursion and r.chance(3, 10):
                 out.append(Field(nm, T("ref", decl=self_decl, bare=True, pct=False, args=[]), mask))
@@ -394,6 +416,8 @@ def is_simple_for_crc(decl, c):
     complex elements"""
     fields = c.fields if decl.kind != "typedef" else []
     for f in fields:
+        if f.anon:
+            return False
         if f.arr is not None and f.typ.kind not in ("prim", "boxedprim", "bool"):
             return False
         if f.arr is not None and f.typ.kind == "prim" and f.typ.spelling.startswith("%"):
